@@ -169,8 +169,12 @@ def field_strategy(width):
 def cards(draw):
     fmt = draw(st.sampled_from(["8", "16", "16d"]))
     width = 8 if fmt == "8" else 16
+    # card names up to the full width of the name field: 8 characters in small field format, 7 + "*" in large
+    # field format (a quarter of the cases fill it exactly)
+    nmax = 7 if fmt == "8" else 6
     name = draw(st.builds(lambda a, b: a + b, st.sampled_from(letters),
-                          st.text(letters + "0123456789", max_size=6)))
+                          st.text(letters + "0123456789", max_size=nmax)
+                          if draw(st.integers(0, 3)) else st.text(letters + "0123456789", min_size=nmax, max_size=nmax)))
     ncards = draw(st.integers(1, 3))
     out = []
     for _ in range(ncards):
@@ -178,7 +182,8 @@ def cards(draw):
         flds = draw(st.lists(field_strategy(width), min_size=n, max_size=n))
         out.append(flds)
     return {"fmt": fmt, "name": name, "cards": out,
-            "contmark": draw(st.booleans()), "lower": draw(st.booleans())}
+            "contmark": draw(st.booleans()), "lower": draw(st.booleans()),
+            "comma_star": fmt != "8" and draw(st.booleans())}
 
 
 def _strip_trailing(lst):
@@ -275,7 +280,8 @@ def oracle_cards(case, R):
                     toks.pop()
             else:
                 toks += [""] * (8 - len(toks))
-            head = (case["name"].lower() if case["lower"] else case["name"]) if first \
+            head = ((case["name"].lower() if case["lower"] else case["name"])
+                    + ("*" if case.get("comma_star") else "")) if first \
                 else ("+C%d" % k if case["contmark"] else "")
             tail = [("+C%d" % (k + 1))] if (case["contmark"] and not last) else []
             line = ",".join([head] + toks + tail)
